@@ -26,12 +26,14 @@ func C02(ctx *Ctx) {
 	R.Trusted = []string{"go/packages + go/ssa", "absint: values are hash-consed terms over entry symbols, bus reads rd<epoch>[addr] and exact gated merges, so equal keys denote equal runtime values", "whole bus mapped (nil-backend arms pruned)", "user callbacks do not modify the CPU"}
 	R.Rule("tables", "opcode tables, cycle tables and mode constants of the two packages agree")
 	R.Rule("congruent", "for every cell the two Step functions have the same abstract result: return value, CPU fields, dispatch-time fields, the trace of bus accesses (kind, address, datum, branch outcomes in force) and the calls leaving the module; values are the same when their terms are, or when they are the same function of the entry symbols after normalisation (gated merges resolved path by path, flags as boolean functions of canonical propositions); every merge in a compared value is exact")
+	R.Rule("api", "the other exported methods the two CPU types share (Reset, TriggerIRQ, SetFlags, Flags, ...) have the same abstract effect for every width setting: result, CPU fields, bus accesses")
 	sw := cpuSweep(ctx)
 	A, B := sw.Models[cpuRels[0]], sw.Models[cpuRels[1]]
 	if A.Err != "" || B.Err != "" {
 		R.Fail("tables", "models", "", A.Err+" "+B.Err)
 		return
 	}
+	checkCPUAPI(ctx, A, B)
 	// ---- tables
 	tOK := true
 	routineMap := map[string]string{}
@@ -362,4 +364,98 @@ func effectEvents(r *CellResult) []string {
 		}
 	}
 	return out
+}
+
+// checkCPUAPI compares, cell by cell (M,X,E fixed, everything else symbolic), the exported methods both CPU types have
+// under the same name and with the same parameter types - what a user calls between steps must not tell the two
+// interpreters apart either.
+func checkCPUAPI(ctx *Ctx, A, B *CPUModel) {
+	R := ctx.R
+	msA := ctx.Prog.SSA.MethodSets.MethodSet(types.NewPointer(A.Named))
+	n := 0
+	for i := 0; i < msA.Len(); i++ {
+		sel := msA.At(i)
+		name := sel.Obj().Name()
+		if !sel.Obj().Exported() || name == "Step" || strings.HasPrefix(name, "Disassemble") || strings.HasPrefix(name, "Init") {
+			continue
+		}
+		fa := ctx.Prog.SSA.MethodValue(sel)
+		fb := ctx.Prog.Method(B.Rel, "CPU", name)
+		if fa == nil || fb == nil || fa.Blocks == nil || fb.Blocks == nil || len(fa.Params) != len(fb.Params) {
+			continue
+		}
+		same := true
+		for k := 1; k < len(fa.Params); k++ {
+			if !types.Identical(fa.Params[k].Type(), fb.Params[k].Type()) {
+				same = false
+			}
+			if _, _, isInt := absint.IntType(fa.Params[k].Type()); !isInt {
+				same = false
+			}
+		}
+		if !same {
+			continue
+		}
+		n++
+		pos := ctx.Prog.Pos(fa.Pos())
+		msg := ""
+		for f := 0; f < 8 && msg == ""; f++ {
+			cell := CPUCell{Opcode: 0xEA, M: f & 1, X: f >> 1 & 1, E: f >> 2 & 1, Intr: A.IntrNone, Stopped: -1, Op1: -1, DLZero: -1}
+			cb := cell
+			cb.Intr = B.IntrNone
+			ra, rb := A.RunFn(cell, fa, nil), B.RunFn(cb, fb, nil)
+			switch {
+			case len(ra.Imprec) > 0 || len(rb.Imprec) > 0:
+				msg = fmt.Sprintf("cell %s: not interpretable: %v %v", cell, ra.Imprec, rb.Imprec)
+			case ra.Returned != rb.Returned:
+				msg = fmt.Sprintf("cell %s: one returns, the other does not", cell)
+			}
+			if msg != "" {
+				break
+			}
+			cmp := func(what string, x, y absint.Val) {
+				if msg != "" || x == nil || y == nil {
+					return
+				}
+				if absint.ValKey(x) == absint.ValKey(y) {
+					return
+				}
+				xi, ok1 := x.(*absint.Int)
+				yi, ok2 := y.(*absint.Int)
+				if ok1 && ok2 {
+					if ok, _ := sameTerm(xi, ra.Conds, yi, rb.Conds); ok {
+						return
+					}
+				}
+				msg = fmt.Sprintf("cell %s: %s is %s in %s and %s in %s", cell, what, trunc(fmtVal(x)), relShort(A.Rel), trunc(fmtVal(y)), relShort(B.Rel))
+			}
+			cmp("the result", ra.Ret, rb.Ret)
+			for fname, va := range ra.Final {
+				if vb, ok := rb.Final[fname]; ok {
+					cmp("field "+fname, va, vb)
+				}
+			}
+			if msg == "" && len(ra.Accesses) != len(rb.Accesses) {
+				msg = fmt.Sprintf("cell %s: %d bus accesses in %s, %d in %s", cell, len(ra.Accesses), relShort(A.Rel), len(rb.Accesses), relShort(B.Rel))
+			}
+			for k := 0; msg == "" && k < len(ra.Accesses); k++ {
+				xa, xb := ra.Accesses[k], rb.Accesses[k]
+				if xa.Write != xb.Write {
+					msg = fmt.Sprintf("cell %s: bus access #%d is a write in one interpreter and a read in the other", cell, k)
+				}
+				if xa.Addr != nil && xb.Addr != nil {
+					cmp(fmt.Sprintf("the address of bus access #%d", k), xa.Addr, xb.Addr)
+				}
+				if xa.Write && xa.Data != nil && xb.Data != nil {
+					cmp(fmt.Sprintf("the datum of bus write #%d", k), xa.Data, xb.Data)
+				}
+			}
+		}
+		if msg != "" {
+			R.Fail("api", name, pos, msg)
+		} else {
+			R.Pass("api", name, pos, "same result, fields and bus accesses in both interpreters for every width setting")
+		}
+	}
+	R.Count("shared-api-methods", n)
 }
